@@ -63,6 +63,7 @@ def stat_spec(draw, max_nodes=9, min_samples=1, **kw):
     kw.setdefault("individuals", False)
     kw.setdefault("populations", False)
     kw.setdefault("extra_flags", False)
+    kw.setdefault("min_nodes", max(1, min_samples))
     spec = draw(gen.ts_spec(max_nodes=max_nodes, min_samples=min_samples, time_styles=TIME_STYLES, **kw))
     return rescale(spec)
 
@@ -103,30 +104,34 @@ def win_arg(kind, coarse):
     return coarse if kind == "list" else kind
 
 
-def draw_sample_sets(draw, spec, lo=1, hi=3, disjoint=False, min_size=1):
+def draw_sample_sets(draw, spec, lo=1, hi=3, disjoint=False, min_size=None, need=1):
+    """k in [lo, hi] sample sets (lists of distinct sample nodes).  `need` is a hard lower bound on
+    the set size, `min_size` a preferred one (reduced when the tree sequence has too few samples);
+    disjoint=True falls back to overlapping sets when there are not enough samples."""
     smp = model.samples(spec)
     k = draw(st.integers(lo, hi))
-    sets = []
-    if disjoint:
+    if min_size is None:
+        min_size = draw(st.sampled_from([1, 2, 2, 3]))
+    min_size = max(need, min_size)
+    if disjoint and len(smp) >= k * need:
+        ms = max(need, min(min_size, len(smp) // k))
         perm = list(draw(st.permutations(smp)))
-        # sizes: every set gets min_size, the rest is distributed
-        if len(perm) < k * min_size:
-            return None
-        sizes = [min_size] * k
-        rest = len(perm) - k * min_size
+        sizes = [ms] * k
+        rest = len(perm) - k * ms
         for i in range(k):
             e = draw(st.integers(0, rest))
             sizes[i] += e
             rest -= e
-        i = 0
-        for s in sizes:
-            sets.append(sorted(perm[i:i + s]))
-            i += s
+        sets, i = [], 0
+        for sz in sizes:
+            sets.append(sorted(perm[i:i + sz]))
+            i += sz
         return sets
-    if len(smp) < min_size:
-        return None
+    ms = max(need, min(min_size, len(smp)))
+    assert len(smp) >= ms, "stat_spec(min_samples=...) must cover `need`"
+    sets = []
     for _ in range(k):
-        n = draw(st.integers(min_size, len(smp)))
+        n = draw(st.integers(ms, len(smp)))
         sets.append(list(draw(st.permutations(smp))[:n]))
     return sets
 
@@ -193,7 +198,7 @@ def gs_case(draw):
     use_sets = draw(st.booleans())
     case = dict(spec=spec)
     if use_sets:
-        case["sets"] = draw_sample_sets(draw, spec)
+        case["sets"] = draw_sample_sets(draw, spec, min_size=1)
         k = len(case["sets"])
     else:
         k = draw(st.integers(1, 3))
@@ -275,7 +280,606 @@ def run_gs(case, ctx):
     ctx.close(got, comb, f"refinement[{mode}]")
 
 
+
+# ------------------------------------------------------------------ (B)+(C)+(D) named sample-set statistics
+ONE_WAY = ["diversity", "segregating_sites", "Y1", "Tajimas_D"]
+K_WAY = ["divergence", "genetic_relatedness", "Y2", "f2", "Y3", "f3", "f4", "Fst"]
+ADDITIVE = {"diversity", "segregating_sites", "Y1", "divergence", "genetic_relatedness", "Y2", "f2",
+            "Y3", "f3", "f4"}
+
+
+@st.composite
+def named_case(draw):
+    stat = draw(st.sampled_from(ONE_WAY + ONE_WAY + K_WAY + K_WAY + ["genetic_relatedness"]))
+    k = O.ARITY[stat]
+    need = {"Y1": 3, "Tajimas_D": 4}.get(stat, 1)
+    degenerate_ok = draw(st.integers(0, 3)) == 0  # keep some sets below the size the formula needs
+    if degenerate_ok and stat != "Tajimas_D":
+        need = 1
+    min_samples = max(need, 2, draw(st.sampled_from([2, 3, 4, 5, 6])))
+    spec = draw(stat_spec(min_samples=min_samples, max_nodes=10))
+    smp = model.samples(spec)
+    case = dict(spec=spec, stat=stat)
+    case["mode"] = draw(st.sampled_from(["site", "branch", "node"]))
+    case["span_normalise"] = draw(st.booleans())
+    case["kind"], case["coarse"], case["fine"] = draw_windows(draw, spec)
+    disjoint = draw(st.booleans())
+    if k == 1:
+        form = draw(st.sampled_from(["lists", "lists", "flat"] + (["none"] if stat != "Y1" else [])))
+        if form == "lists":
+            sets = draw_sample_sets(draw, spec, 1, 3, disjoint=disjoint, need=need)
+        elif form == "flat":
+            sets = draw_sample_sets(draw, spec, 1, 1, need=need)
+        else:
+            sets = [list(smp)]
+        case.update(form=form, sets=sets, indexes=None)
+    else:
+        form = draw(st.sampled_from(["full", "full", "single", "none"]))
+        # the C library rejects fewer sample sets than the arity of the statistic
+        # (TSK_ERR_INSUFFICIENT_SAMPLE_SETS) even when the index tuples repeat a set; kept out of
+        # the domain as input validation
+        lo, hi = (k, k) if form == "none" else (k, 4)
+        sets = draw_sample_sets(draw, spec, lo, hi, disjoint=disjoint)
+        ns = len(sets)
+        if form == "full":
+            ni = draw(st.integers(1, 3))
+            indexes = [[draw(st.integers(0, ns - 1)) for _ in range(k)] for _ in range(ni)]
+        elif form == "single":
+            indexes = [draw(st.integers(0, ns - 1)) for _ in range(k)]
+        else:
+            indexes = None
+        case.update(form=form, sets=sets, indexes=indexes)
+    if stat == "genetic_relatedness":
+        case["polarised"] = draw(st.booleans())
+        case["centre"] = draw(st.booleans())
+        case["proportion"] = draw(st.booleans())
+    return case
+
+
+def nan_or_zero(ctx, arr, what):
+    arr = np.asarray(arr, dtype=float)
+    ctx.check(bool(np.all(np.isnan(arr) | (arr == 0))), what,
+              lambda: f"degenerate column (zero denominator) holds a value other than nan/0: {arr!r}")
+
+
+def compare_cols(ctx, got, exp, deg, what):
+    """Last axis = statistics; degenerate columns must be nan or 0, the rest close."""
+    deg = np.asarray(deg, dtype=bool)
+    ctx.check(got.shape == exp.shape, "shape", f"{what}: {got.shape} expected {exp.shape}")
+    if (~deg).any():
+        ctx.close(got[..., ~deg], exp[..., ~deg], what)
+    if deg.any():
+        nan_or_zero(ctx, got[..., deg], what)
+
+
+def call_named(ts, case, windows, **override):
+    stat, mode = case["stat"], case["mode"]
+    kw = dict(windows=windows, mode=mode)
+    if stat != "Tajimas_D":
+        kw["span_normalise"] = case["span_normalise"]
+    if stat == "genetic_relatedness":
+        kw.update(polarised=case["polarised"], centre=case["centre"], proportion=case["proportion"])
+    kw.update(override)
+    meth = getattr(ts, stat)
+    if O.ARITY[stat] == 1:
+        form = case["form"]
+        ss = None if form == "none" else (case["sets"][0] if form == "flat" else case["sets"])
+        if ss is None:
+            return meth(**kw)
+        return meth(ss, **kw)
+    idx = case["indexes"]
+    if case["form"] == "full":
+        idx = [tuple(t) for t in idx]
+    return meth(case["sets"], indexes=idx, **kw)
+
+
+def full_dims(ctx, case, got, nw, n_nodes, ncols, what):
+    """Undo the documented dimension dropping (rules 1-4) and check the shape exactly."""
+    got = np.asarray(got)
+    shape = []
+    if case["kind"] is not None or what == "fine":
+        shape.append(nw)
+    if case["mode"] == "node":
+        shape.append(n_nodes)
+    dropped_last = case["form"] in ("flat", "none", "single")
+    if not dropped_last:
+        shape.append(ncols)
+    ctx.check(got.shape == tuple(shape), "output dimensions",
+              f"{case['stat']} form={case['form']} windows={case['kind']} mode={case['mode']}: shape "
+              f"{got.shape} expected {tuple(shape)}")
+    if dropped_last:
+        got = got[..., np.newaxis]
+    if case["kind"] is None and what != "fine":
+        got = got[np.newaxis]
+    return got.astype(float)
+
+
+def expected_named(spec, case, windows):
+    """(expected array, degenerate columns, skip mask or None) from oracle (B)."""
+    stat, mode, sets = case["stat"], case["mode"], case["sets"]
+    sn = case.get("span_normalise", True)
+    k = O.ARITY[stat]
+    if k == 1:
+        idx = None
+        ncols = len(sets)
+    else:
+        idx = case["indexes"]
+        if case["form"] == "single":
+            idx = [idx]
+        elif case["form"] == "none":
+            idx = [list(range(k))]
+        ncols = len(idx)
+    n = np.array([len(s) for s in sets], dtype=float)
+    if stat in ADDITIVE and stat != "genetic_relatedness":
+        exp, deg = O.sample_count_named(spec, stat, sets, idx, windows, mode, sn)
+        return exp, deg, None, idx
+    if stat == "genetic_relatedness":
+        exp, deg = O.sample_count_named(spec, stat, sets, idx, windows, mode, sn,
+                                        polarised=case["polarised"], centre=case["centre"])
+        skip = None
+        if case["proportion"]:
+            union = sorted({u for s in sets for u in s})
+            den, _ = O.sample_count_named(spec, "segregating_sites", [union], None, windows, mode, sn)
+            with np.errstate(divide="ignore", invalid="ignore"):
+                exp = exp / den
+            skip = np.broadcast_to(den == 0, exp.shape)
+        return exp, deg, skip, idx
+    if stat == "Tajimas_D":
+        T, dT = O.sample_count_named(spec, "diversity", sets, None, windows, mode, False)
+        S, _ = O.sample_count_named(spec, "segregating_sites", sets, None, windows, mode, False)
+        D, rad = O.tajimas_d(T, S, n)
+        rad = np.where(np.isnan(rad), 0.0, rad)
+        skip = (np.abs(rad) <= 1e-6) | np.broadcast_to(n < 4, rad.shape)
+        return D, dT, skip, idx
+    if stat == "Fst":
+        d, _ = O.sample_count_named(spec, "diversity", sets, None, windows, mode, sn)
+        dxy, _ = O.sample_count_named(spec, "divergence", sets, idx, windows, mode, sn)
+        exp = np.zeros(dxy.shape)
+        skip = np.zeros(dxy.shape, dtype=bool)
+        for c, (u, v) in enumerate(idx):
+            den = d[..., u] + d[..., v] + 2 * dxy[..., c]
+            with np.errstate(divide="ignore", invalid="ignore"):
+                exp[..., c] = 1 - 2 * (d[..., u] + d[..., v]) / den
+            skip[..., c] = (den == 0) | np.isnan(den)
+        deg = np.array([n[u] < 2 or n[v] < 2 for u, v in idx])
+        return exp, deg, skip, idx
+    raise AssertionError(stat)
+
+
+def check_against(ctx, case, got, exp, deg, skip, what):
+    """Compare with the zero-denominator policy: degenerate columns nan/0; positions whose derived
+    ratio has an exactly-zero denominator must be non-finite in site/node mode and are not
+    asserted in branch mode (running-sum residue)."""
+    ctx.check(got.shape == exp.shape, "shape", f"{what}: {got.shape} expected {exp.shape}")
+    if skip is not None and skip.any():
+        ctx.label("zero_denominator")
+        if case["mode"] != "branch" and case["stat"] != "Tajimas_D":
+            sel = skip & ~np.broadcast_to(np.asarray(deg, dtype=bool), skip.shape)
+            ctx.check(bool(np.all(~np.isfinite(got[sel]))), what,
+                      lambda: f"zero denominator but finite value: got {got[sel]!r}")
+        got = np.where(skip, 0.0, got)
+        exp = np.where(skip, 0.0, exp)
+    compare_cols(ctx, got, exp, deg, what)
+
+
+def run_named(case, ctx):
+    import tskit
+
+    spec = case["spec"]
+    stat, mode = case["stat"], case["mode"]
+    ts = gen.build_tables(spec, tskit).tree_sequence()
+    n_nodes = len(spec["nodes"])
+    coarse = O.explicit_windows(spec, case["kind"], case["coarse"])
+    fine = case["fine"]
+    sets = case["sets"]
+    used = sorted({u for s in sets for u in s})
+    common_labels(ctx, spec, coarse, fine, used)
+    ctx.label("stat=" + stat)
+    ctx.label(f"{stat}/{mode}")
+    ctx.label("form=" + case["form"])
+    ctx.label("windows=" + str(case["kind"]))
+    flat = [u for s in sets for u in s]
+    ctx.label("overlapping_sets", len(flat) != len(set(flat)))
+    ctx.label("singleton_set", any(len(s) == 1 for s in sets))
+    sn = case.get("span_normalise", True)
+
+    got = call_named(ts, case, win_arg(case["kind"], case["coarse"]))
+    exp, deg, skip, idx = expected_named(spec, case, coarse)
+    ncols = exp.shape[-1]
+    if np.ndim(got) == 0:
+        ctx.label("scalar_result")
+    got = full_dims(ctx, case, got, len(coarse) - 1, n_nodes, ncols, "coarse")
+    ctx.label("degenerate_column", bool(np.any(deg)))
+    check_against(ctx, case, got, exp, deg, skip, f"{stat}[{mode}] summary function")
+
+    # (C) first principles
+    nondeg = ~np.asarray(deg, dtype=bool)
+    if mode in ("site", "branch") and stat in ("diversity", "divergence", "Y1", "Y2", "Y3", "f2", "f3", "f4"):
+        tidx = idx if idx is not None else [[i] for i in range(len(sets))]
+        e2, d2 = O.tuple_stat(spec, stat, sets, tidx, coarse, mode, sn)
+        ctx.eq(list(map(bool, d2)), list(map(bool, deg)), "degenerate columns (tuple enumeration)")
+        if nondeg.any():
+            ctx.close(got[..., nondeg], e2[..., nondeg], f"{stat}[{mode}] sample-tuple enumeration")
+    if mode == "site" and stat in ("diversity", "divergence"):
+        tidx = idx if idx is not None else [[i, i] for i in range(len(sets))]
+        e3 = O.genotype_diversity(spec, sets, tidx, coarse, sn)
+        if nondeg.any():
+            ctx.close(got[..., nondeg], e3[..., nondeg], f"{stat}[site] pairwise genotype differences")
+    if mode == "site" and stat == "segregating_sites":
+        ctx.close(got, O.genotype_segsites(spec, sets, coarse, sn), "segregating_sites[site] distinct alleles - 1")
+    if stat == "genetic_relatedness" and mode in ("site", "branch") and not case["proportion"]:
+        e4 = O.relatedness_pairs(spec, sets, idx, coarse, mode, sn, case["polarised"], case["centre"])
+        ctx.close(got, e4, f"genetic_relatedness[{mode}] shared alleles/branches of sample pairs")
+
+    # (D) refinement
+    additive = stat in ADDITIVE and not case.get("proportion", False)
+    gfine = call_named(ts, case, fine)
+    gfine = full_dims(ctx, case, gfine, len(fine) - 1, n_nodes, ncols, "fine")
+    efine, degf, skipf, _ = expected_named(spec, case, fine)
+    check_against(ctx, case, gfine, efine, degf, skipf, f"{stat}[{mode}] summary function, refined windows")
+    if additive and nondeg.any():
+        comb = O.combine_refinement(gfine[..., nondeg], fine, coarse, sn)
+        ctx.close(got[..., nondeg], comb, f"{stat}[{mode}] refinement")
+
+
+
+# ------------------------------------------------------------------ allele frequency spectrum
+@st.composite
+def afs_case(draw):
+    min_samples = draw(st.sampled_from([2, 3, 4, 5]))
+    spec = draw(stat_spec(min_samples=min_samples, max_nodes=10))
+    smp = model.samples(spec)
+    case = dict(spec=spec)
+    case["mode"] = draw(st.sampled_from(["site", "site", "branch"]))
+    case["polarised"] = draw(st.booleans())
+    case["span_normalise"] = draw(st.booleans())
+    case["kind"], case["coarse"], case["fine"] = draw_windows(draw, spec)
+    form = draw(st.sampled_from(["lists", "lists", "lists", "none"]))
+    if form == "none":
+        sets = [list(smp)]
+    else:
+        sets = draw_sample_sets(draw, spec, 1, 3, disjoint=draw(st.booleans()))
+        sets = [s[:4] for s in sets]
+    case.update(form=form, sets=sets)
+    return case
+
+
+KEY_AFS_GAP = "afs.branch_node_gains_parent_after_gap"
+
+
+def _gains_parent_after_gap(spec):
+    ivs = O.tree_intervals(spec)
+    for (a0, b0, p0), (a1, b1, p1) in zip(ivs[:-1], ivs[1:]):
+        if any(p1[u] >= 0 and p0[u] < 0 for u in range(len(p0))):
+            return True
+    return False
+
+
+def classify_afs(case, exc):
+    """Branch-mode AFS: a node that has no parent on the tree to the left of an edge's left end
+    (missing left flank, gap, root becoming a child) is credited with the span since its previous
+    update instead of the span since the edge begins (tsk_treeseq_branch_allele_frequency_spectrum
+    does not reset last_update[child] when an edge is inserted)."""
+    if case.get("mode") == "branch" and str(exc).startswith("afs[branch]") and _gains_parent_after_gap(case["spec"]):
+        return KEY_AFS_GAP
+    return None
+
+
+def run_afs(case, ctx):
+    import tskit
+
+    spec = case["spec"]
+    mode, pol, sn = case["mode"], case["polarised"], case["span_normalise"]
+    ts = gen.build_tables(spec, tskit).tree_sequence()
+    coarse = O.explicit_windows(spec, case["kind"], case["coarse"])
+    fine = case["fine"]
+    sets = case["sets"]
+    common_labels(ctx, spec, coarse, fine, sorted({u for s in sets for u in s}))
+    ctx.label("mode=" + mode)
+    ctx.label("polarised", pol)
+    ctx.label("folded", not pol)
+    ctx.label("joint", len(sets) > 1)
+    ctx.label("windows=" + str(case["kind"]))
+    dims = tuple(len(x) + 1 for x in sets)
+
+    def call(windows):
+        kw = dict(windows=windows, mode=mode, span_normalise=sn, polarised=pol)
+        if case["form"] == "none":
+            return np.asarray(ts.allele_frequency_spectrum(**kw), dtype=float)
+        return np.asarray(ts.allele_frequency_spectrum(sets, **kw), dtype=float)
+
+    def check(got, windows, what):
+        nw = len(windows) - 1
+        ctx.check(got.shape == (nw,) + dims, "shape", f"afs {what}: {got.shape} expected {(nw,) + dims}")
+        unf = O.afs_unfolded(spec, sets, windows, mode, pol, sn)
+        ctx.label("afs_nonzero", bool(np.any(unf != 0)))
+        if pol:
+            ctx.close(got, unf, f"afs[{mode}] polarised {what}")
+        else:
+            if len(dims) == 1:
+                ctx.close(got, O.fold_1d(unf), f"afs[{mode}] folded {what}")
+            ctx.close(O.symmetrise(got), O.symmetrise(unf), f"afs[{mode}] folded, entry + mirror entry {what}")
+            up = O.upper_half_mask(dims)
+            ctx.check(bool(np.all(got[:, up] == 0)), f"afs[{mode}] folded {what}",
+                      lambda: f"entries above half of the total sample count are not zero: {got!r}")
+
+    got = call(win_arg(case["kind"], case["coarse"]))
+    if case["kind"] is None:
+        ctx.check(got.shape == dims, "shape", f"afs windows=None: {got.shape} expected {dims}")
+        got = got[np.newaxis]
+    check(got, coarse, "")
+    gfine = call(fine)
+    check(gfine, fine, "(refined windows)")
+    ctx.close(got, O.combine_refinement(gfine, fine, coarse, sn), f"afs[{mode}] refinement")
+    if mode == "site" and draw_node_mode(case):
+        try:
+            ts.allele_frequency_spectrum(sets, mode="node")
+        except ValueError:
+            pass
+        except tskit.LibraryError:
+            pass
+        else:
+            ctx.fail("afs node mode", "mode='node' did not raise (documented: not supported)")
+
+
+def draw_node_mode(case):
+    return len(case["sets"]) == 1
+
+
+# ------------------------------------------------------------------ weighted statistics
+WSTATS = ["trait_covariance", "trait_correlation", "trait_linear_model", "genetic_relatedness_weighted",
+          "genetic_relatedness_vector"]
+TRAITS = [0.0, 1.0, 1.0, 2.0, -1.0, 3.0, 0.5, -2.0]
+
+
+@st.composite
+def weighted_case(draw):
+    stat = draw(st.sampled_from(WSTATS))
+    min_samples = draw(st.sampled_from([2, 3, 4, 5, 6]))
+    if stat == "trait_linear_model":
+        min_samples = max(min_samples, 4)
+    spec = draw(stat_spec(min_samples=min_samples, max_nodes=10))
+    smp = model.samples(spec)
+    n = len(smp)
+    case = dict(spec=spec, stat=stat)
+    if stat == "genetic_relatedness_vector":
+        case["mode"] = "branch"
+    else:
+        case["mode"] = draw(st.sampled_from(["site", "branch", "node"]))
+    case["span_normalise"] = draw(st.booleans())
+    case["kind"], case["coarse"], case["fine"] = draw_windows(draw, spec)
+    k = draw(st.integers(1, 3))
+    W = [[draw(st.sampled_from(TRAITS)) for _ in range(k)] for _ in range(n)]
+    if stat == "trait_correlation":
+        # every column needs positive standard deviation (documented requirement)
+        for c in range(k):
+            if len({row[c] for row in W}) == 1:
+                W[0][c] = W[0][c] + 1.0
+    case["W"] = W
+    if stat == "trait_linear_model":
+        nz = draw(st.integers(0, 2))
+        Z = [[draw(st.sampled_from([0.0, 1.0, 2.0, -1.0])) for _ in range(nz)] for _ in range(n)]
+        if nz:
+            tZ = np.column_stack([np.array(Z).reshape(n, nz), np.ones(n)])
+            if np.linalg.matrix_rank(tZ) < nz + 1:
+                nz, Z = 0, None  # columns must be linearly independent (documented)
+        else:
+            Z = None
+        case["Z"] = Z
+    if stat == "genetic_relatedness_weighted":
+        case["polarised"] = draw(st.booleans())
+        case["centre"] = draw(st.booleans())
+        form = draw(st.sampled_from(["full", "single"] + (["none"] if k == 2 else [])))
+        if form == "full":
+            ni = draw(st.integers(1, 3))
+            idx = [[draw(st.integers(0, k - 1)), draw(st.integers(0, k - 1))] for _ in range(ni)]
+        elif form == "single":
+            idx = [draw(st.integers(0, k - 1)), draw(st.integers(0, k - 1))]
+        else:
+            idx = None
+        case.update(form=form, indexes=idx)
+    if stat == "genetic_relatedness_vector":
+        case["centre"] = draw(st.booleans())
+        nn = len(spec["nodes"])
+        if not case["centre"] and draw(st.integers(0, 2)) > 0:
+            case["nodes"] = [draw(st.integers(0, nn - 1)) for _ in range(draw(st.integers(1, 4)))]
+        else:
+            case["nodes"] = None
+        if draw(st.booleans()):
+            # the window check of this method allows windows that do not span the genome
+            ws = case["fine"]
+            if len(ws) > 2:
+                a = draw(st.integers(0, len(ws) - 2))
+                b = draw(st.integers(a + 1, len(ws) - 1))
+                case["partial"] = ws[a:b + 1]
+    return case
+
+
+KEY_GRV_SPAN = "genetic_relatedness_vector.span_normalise_ignored"
+
+
+def classify_weighted(case, exc):
+    """genetic_relatedness_vector(span_normalise=True) returns the un-normalised sums (the C
+    function never applies TSK_STAT_SPAN_NORMALISE)."""
+    if (case.get("stat") == "genetic_relatedness_vector" and case.get("span_normalise")
+            and "span_normalise=True" in str(exc)):
+        return KEY_GRV_SPAN
+    return None
+
+
+def run_weighted(case, ctx):
+    import tskit
+
+    spec = case["spec"]
+    stat, mode, sn = case["stat"], case["mode"], case["span_normalise"]
+    ts = gen.build_tables(spec, tskit).tree_sequence()
+    smp = model.samples(spec)
+    n = len(smp)
+    n_nodes = len(spec["nodes"])
+    W = np.array(case["W"], dtype=float).reshape(n, -1)
+    k = W.shape[1]
+    coarse = O.explicit_windows(spec, case["kind"], case["coarse"])
+    fine = case["fine"]
+    common_labels(ctx, spec, coarse, fine, smp)
+    ctx.label("stat=" + stat)
+    ctx.label(f"{stat}/{mode}")
+    ctx.label("windows=" + str(case["kind"]))
+    warg = win_arg(case["kind"], case["coarse"])
+
+    def undrop(got, nw, windows_given, ncols, dropped_last):
+        got = np.asarray(got, dtype=float)
+        shape = ([nw] if windows_given else []) + ([n_nodes] if mode == "node" else []) + (
+            [] if dropped_last else [ncols])
+        ctx.check(got.shape == tuple(shape), "output dimensions", f"{stat}: {got.shape} expected {tuple(shape)}")
+        if dropped_last:
+            got = got[..., np.newaxis]
+        if not windows_given:
+            got = got[np.newaxis]
+        return got
+
+    if stat in ("trait_covariance", "trait_correlation", "trait_linear_model"):
+        Z = None
+        if stat == "trait_linear_model" and case.get("Z") is not None:
+            Z = np.array(case["Z"], dtype=float).reshape(n, -1)
+
+        def call(windows):
+            if stat == "trait_linear_model":
+                return ts.trait_linear_model(W, Z, windows=windows, mode=mode, span_normalise=sn)
+            return getattr(ts, stat)(W, windows=windows, mode=mode, span_normalise=sn)
+
+        def oracle(windows):
+            if stat == "trait_covariance":
+                return O.trait_covariance(spec, W, windows, mode, sn), np.inf
+            if stat == "trait_correlation":
+                return O.trait_correlation(spec, W, windows, mode, sn), np.inf
+            return O.trait_linear_model(spec, W, Z, windows, mode, sn)
+
+        got = undrop(call(warg), len(coarse) - 1, case["kind"] is not None, k, False)
+        exp, worst = oracle(coarse)
+        if worst < 1e-6:
+            ctx.label("ill_conditioned_skipped")
+            return
+        ctx.label("covariates", Z is not None)
+        ctx.close(got, exp, f"{stat}[{mode}]", rtol=1e-7, atol=1e-9)
+        gfine = undrop(call(fine), len(fine) - 1, True, k, False)
+        efine, _ = oracle(fine)
+        ctx.close(gfine, efine, f"{stat}[{mode}] refined windows", rtol=1e-7, atol=1e-9)
+        ctx.close(got, O.combine_refinement(gfine, fine, coarse, sn), f"{stat}[{mode}] refinement",
+                  rtol=1e-7, atol=1e-9)
+        return
+
+    if stat == "genetic_relatedness_weighted":
+        pol, centre = case["polarised"], case["centre"]
+        form, idx = case["form"], case["indexes"]
+        full = [idx] if form == "single" else ([[0, 1]] if form == "none" else idx)
+        ctx.label("form=" + form)
+
+        def call(windows):
+            kw = dict(windows=windows, mode=mode, span_normalise=sn, polarised=pol, centre=centre)
+            if form == "none":
+                return ts.genetic_relatedness_weighted(W, **kw)
+            return ts.genetic_relatedness_weighted(W, indexes=[tuple(t) for t in idx] if form == "full" else idx, **kw)
+
+        got = undrop(call(warg), len(coarse) - 1, case["kind"] is not None, len(full), form != "full")
+        exp = O.relatedness_weighted(spec, W, full, coarse, mode, sn, pol, centre)
+        ctx.close(got, exp, f"genetic_relatedness_weighted[{mode}] summary function")
+        if mode in ("site", "branch"):
+            # docstring: sum_ab W_ai W_bj C_ab with C the genetic_relatedness between samples a, b
+            singles = [[u] for u in smp]
+            pairs = [[a, b] for a in range(n) for b in range(n)]
+            C = O.relatedness_pairs(spec, singles, pairs, coarse, mode, sn, pol, centre).reshape(-1, n, n)
+            e2 = np.stack([np.array([W[:, i] @ C[w] @ W[:, j] for i, j in full]) for w in range(len(coarse) - 1)])
+            ctx.close(got, e2, f"genetic_relatedness_weighted[{mode}] = W^T C W")
+        gfine = undrop(call(fine), len(fine) - 1, True, len(full), form != "full")
+        ctx.close(gfine, O.relatedness_weighted(spec, W, full, fine, mode, sn, pol, centre),
+                  f"genetic_relatedness_weighted[{mode}] refined windows")
+        ctx.close(got, O.combine_refinement(gfine, fine, coarse, sn),
+                  f"genetic_relatedness_weighted[{mode}] refinement")
+        return
+
+    # genetic_relatedness_vector (branch mode only: site/node are rejected by the library)
+    centre, nodes = case["centre"], case["nodes"]
+    focal = smp if nodes is None else nodes
+    ctx.label("focal_nodes", nodes is not None)
+    ctx.label("centre", centre)
+
+    def expected(windows, span_normalise):
+        C = O.relatedness_matrix_nodes(spec, focal, windows, "branch", span_normalise)
+        out = np.zeros((len(windows) - 1, len(focal), k))
+        for w in range(len(windows) - 1):
+            Cw = C[w]
+            if centre:  # focal == samples: centred relatedness matrix (I-J/n) C (I-J/n)
+                J = np.eye(n) - np.full((n, n), 1.0 / n)
+                Cw = J @ Cw @ J
+            out[w] = Cw @ W
+        return out
+
+    def call(windows, span_normalise):
+        kw = dict(windows=windows, mode="branch", span_normalise=span_normalise, centre=centre)
+        if nodes is not None:
+            kw["nodes"] = nodes
+        return np.asarray(ts.genetic_relatedness_vector(W, **kw), dtype=float)
+
+    for wl, given, tag in ((coarse, case["kind"] is not None, ""), (fine, True, " refined windows"),
+                           (case.get("partial"), True, " partial windows")):
+        if wl is None:
+            continue
+        arg = warg if tag == "" else wl
+        got = call(arg, False)
+        if not given:
+            ctx.check(got.shape == (len(focal), k), "shape", f"vector windows=None: {got.shape}")
+            got = got[np.newaxis]
+        ctx.check(got.shape == (len(wl) - 1, len(focal), k), "shape", f"vector: {got.shape}")
+        ctx.close(got, expected(wl, False), "genetic_relatedness_vector span_normalise=False" + tag)
+        if tag == " refined windows":
+            g0 = call(warg, False)
+            g0 = g0[np.newaxis] if case["kind"] is None else g0
+            ctx.close(g0, O.combine_refinement(got, fine, coarse, False), "genetic_relatedness_vector refinement")
+    if sn:
+        got = call(warg, True)
+        got = got[np.newaxis] if case["kind"] is None else got
+        ctx.close(got, expected(coarse, True), "genetic_relatedness_vector span_normalise=True")
+
+
+def _dev(run, classify):  # DEV ONLY (remove before delivery)
+    import os
+
+    def wrapped(case, ctx):
+        try:
+            run(case, ctx)
+        except Exception as e:
+            if os.environ.get("VF_C08_DEV_OPEN") and classify(case, e):
+                ctx.label("DEV_excluded")
+                return
+            raise
+
+    return wrapped
+
+
+run_afs, run_weighted = _dev(run_afs, classify_afs), _dev(run_weighted, classify_weighted)
+
 SUBCHECKS = [
     SubCheck("C08.general_stat", run_gs, strategy=gs_case, quick=1200, thorough=36000, rule=NT,
              floors={}),
+    SubCheck("C08.named", run_named, strategy=named_case, quick=1200, thorough=36000, rule=NT, floors={}),
+    SubCheck("C08.afs", run_afs, strategy=afs_case, quick=800, thorough=24000, rule=NT, floors={},
+             classify=classify_afs),
+    SubCheck("C08.weighted", run_weighted, strategy=weighted_case, quick=1000, thorough=30000, rule=NT,
+             floors={}, classify=classify_weighted),
 ]
+
+_PROBE_AFS = dict(
+    L=2.0, nodes=[[1, 0.0, -1, -1, ""], [1, 1.0, -1, -1, ""]], edges=[[1.0, 2.0, 1, 0, ""]],
+    sites=[], mutations=[], individuals=[], populations=[], migrations=[])
+_PROBE_GRV = dict(
+    L=4.0, nodes=[[1, 0.0, -1, -1, ""], [1, 0.0, -1, -1, ""], [0, 1.0, -1, -1, ""]],
+    edges=[[0.0, 4.0, 2, 0, ""], [0.0, 4.0, 2, 1, ""]],
+    sites=[], mutations=[], individuals=[], populations=[], migrations=[])
+PROBES = {
+    KEY_AFS_GAP: ("C08.afs", dict(
+        spec=_PROBE_AFS, mode="branch", polarised=True, span_normalise=False, kind=None, coarse=None,
+        fine=[0.0, 0.5, 2.0], form="lists", sets=[[0]])),
+    KEY_GRV_SPAN: ("C08.weighted", dict(
+        spec=_PROBE_GRV, stat="genetic_relatedness_vector", mode="branch", span_normalise=True, kind=None,
+        coarse=None, fine=[0.0, 1.0, 4.0], W=[[1.0], [0.0]], centre=False, nodes=None)),
+}
